@@ -400,9 +400,20 @@ fn cell_position_bodies() -> Vec<String> {
     out
 }
 
+/// more functions whose calls share nothing: what a call answers depends on its argument alone, also
+/// when the call before it (on this or another thread) took another arm, branch or path
+const ISOLATED_MORE: [&str; 6] = [
+    "f := (n: int) -> string { v := [2.5, n, 0][n % 3]; return match v { 0 => \"zero\", x: int => \"int\", x: int|float => \"number\", }; }",
+    "f := (n: int) -> string { v := [2.5, n, \"s\"][n % 3]; if x: int = v { return \"int\"; } if x: int|float = v { return \"number\"; } return \"other\"; }",
+    "f := (n: int) -> any { t := [(n, 1), (n, 1, 2)][n % 2]; return match t { (20, 1) => \"pair 20\", x: (int, int) => \"pair\", x: (int, int, int) => \"triple\", => \"other\", }; }",
+    "f := (n: int) -> int { s := [struct{a := n}, struct{a := n, b := 1}][n % 2]; return match s { x: struct{a: int, b: int} => 2, x: struct{a: int} => 1, }; }",
+    "f := (n: int) -> any { fs := [() -> mut int { return mut 0; }]~; fs(); g := fs().1; c := g(); c += n; return *c; }",
+    "f := (n: int) -> any { it := [mut 1, \"a\"]~; it(); it(); c := it().1; r := if k: mut int = c { k += n; *k } else { 0 }; return r; }",
+];
+
 /// functions of one int whose calls share nothing: the hand-written ones, then a cell made in every position
 fn isolated_programs() -> Vec<String> {
-    let mut out: Vec<String> = ISOLATED.iter().map(|t| t.to_string()).collect();
+    let mut out: Vec<String> = ISOLATED.iter().chain(ISOLATED_MORE.iter()).map(|t| t.to_string()).collect();
     for body in cell_position_bodies() {
         out.push(format!("f := (n: int) -> int {{ {body} c += n; c += 1; return *c; }}"));
     }
@@ -412,6 +423,10 @@ fn isolated_programs() -> Vec<String> {
 /// programs whose executions share nothing
 pub(crate) fn isolated_code_programs() -> Vec<String> {
     let mut out: Vec<String> = ISOLATED_CODE.iter().map(|t| t.to_string()).collect();
+    // fillers made for functions that return cells, for unions whose first member is a cell type
+    out.push("fs := [() -> mut int { return mut 0; }]~; fs(); g := fs().1; c := g(); c += 2; *c".to_string());
+    out.push("it := [mut 1, \"a\"]~; it(); it(); c := it().1; r := if k: mut int = c { k += 5; *k } else { 0 }; r".to_string());
+    out.push("it := [1]~ ? () -> mut int; g := it().1; c := g(); c += 2; *c".to_string());
     for body in cell_position_bodies() {
         out.push(format!("n := 4; {body} c += n; c += 1; *c"));
     }
@@ -1343,7 +1358,7 @@ pub fn run(session: &Session) -> i32 {
         cases.push(json!({"kind": "append", "cell": cell, "threads": 8, "iters": session.tier.of(1000, 5000), "reps": session.tier.of(3, 12)}));
     }
     for which in 0..isolated_programs().len() {
-        cases.push(json!({"kind": "isolated", "threads": 16, "n": 20, "which": which, "reps": if which < ISOLATED.len() { session.tier.of(8, 40) } else { session.tier.of(2, 10) }}));
+        cases.push(json!({"kind": "isolated", "threads": 16, "n": 20, "which": which, "reps": if which < ISOLATED.len() + ISOLATED_MORE.len() { session.tier.of(8, 40) } else { session.tier.of(2, 10) }}));
     }
     for case in &cases {
         if session.stopped() {
